@@ -62,6 +62,13 @@ def add_pt_module(u, ctx):
         sp = U.Splice(it)
         U.add_external_derive(sp)
         u.add_splice(sp)
+    # the one trait + impl of pt.rs that solstat's own code calls on parse-tree values (Expression::loc()):
+    # included verbatim as EXTERNAL (unverified) code; its contract is the assume_specification in unit_det.STD_SPECS
+    for it in ctx.tt.items:
+        if (it.kind == "trait" and it.name == "CodeLocation") or (it.kind == "impl" and it.name.replace(" ", "") == "CodeLocationforExpression"):
+            sp = U.Splice(it)
+            U.add_attr(sp, "#[verifier::external]", "attr:external")
+            u.add_splice(sp)
     u.raw("} // mod pt\n\n", "ptmod")
 
 
